@@ -68,4 +68,32 @@ partial def loop (h : IO.FS.Stream) (step : String → String) : IO Unit := do
 def run (step : String → String) : IO Unit := do
   loop (← IO.getStdin) step
 
+partial def loopS {σ} (h : IO.FS.Stream) (st : σ) (step : σ → String → σ × String) : IO Unit := do
+  let line ← h.getLine
+  if line.isEmpty then return ()
+  let (st', out) := step st line
+  IO.println out
+  loopS h st' step
+
+/-- stateful variant: the driver keeps a model state between request lines -/
+def runS {σ} (init : σ) (step : σ → String → σ × String) : IO Unit := do
+  loopS (← IO.getStdin) init step
+
+/-- `n k1 v1 … kn vn` -/
+def takePairs {α β} (p : String → Option α) (q : String → Option β) :
+    List String → Option (List (α × β) × List String)
+  | [] => none
+  | n :: rest => do
+      let n ← n.toNat?
+      if rest.length < 2 * n then none else
+      let rec go : Nat → List String → Option (List (α × β))
+        | 0, _ => some []
+        | k+1, a :: b :: tl => do
+            let x ← p a; let y ← q b
+            let r ← go k tl
+            some ((x, y) :: r)
+        | _, _ => none
+      let items ← go n rest
+      some (items, rest.drop (2 * n))
+
 end PPVerif.Proto
